@@ -48,6 +48,13 @@ pub fn extra_headers(key: &str) -> Vec<(String, String)> {
         "cache" => vec![h("Cache-Control", "max-age=3600"), h("Pragma", "cache")],
         "origin" => vec![h("Origin", "https://example.org"), h("Access-Control-Request-Method", "POST")],
         "fwd" => vec![h("X-Forwarded-For", "10.0.0.1"), h("Forwarded", "for=10.0.0.1;proto=https"), h("Via", "1.1 proxy")],
+        // a client (or a proxy in front of the server) claiming that the request comes from the server's own host
+        "xff-loop" => vec![h("X-Forwarded-For", "127.0.0.1")],
+        "xff-loop2" => vec![h("X-Forwarded-For", "127.0.0.1, 10.1.2.3")],
+        "xff-v6" => vec![h("X-Forwarded-For", "::1")],
+        "fwd-loop" => vec![h("Forwarded", "for=127.0.0.1")],
+        "fwd-v6" => vec![h("Forwarded", "for=\"[::1]:4711\";proto=http")],
+        "xri-loop" => vec![h("X-Real-IP", "127.0.0.1"), h("X-Forwarded-Host", "localhost"), h("X-Forwarded-Proto", "https")],
         "te" => vec![h("TE", "trailers"), h("Accept-Charset", "utf-16;q=1, *;q=0"), h("Accept-Language", "tlh")],
         other => panic!("bad extra header key {other}"),
     }
@@ -527,7 +534,7 @@ impl HCtx {
                 let sched: Vec<String> = sched_s.split_whitespace().map(|x| x.to_string()).collect();
                 self.conc(mode, reqs, sched);
             }
-            ["fixture", _name] => {
+            ["fixture", _name] | ["deadstart", _name] => {
                 self.l1.exec(toks);
                 self.rebuild();
             }
